@@ -743,6 +743,7 @@ func (c *Ctx) implementsTerm(st *State, v Term, it types.Type) Term {
 	fn := "implements_" + sanitize(c.Reg.TypeKey(it))
 	c.Reg.DeclFun(fn, []Sort{SInt}, SBool)
 	c.Reg.Axiom(fmt.Sprintf("(assert (not (%s 0)))", fn))
+	c.Reg.ImplementsFn(fn, iface)
 	return T(SBool, "(%s (tagof %s))", fn, v.S)
 }
 
